@@ -5,5 +5,6 @@ CONSTANTS MaxIdx = 9
           MaxReaders = 4
           MaxRF = 3
           Depth = 99
+          DupMode = "all"
           QMode = "all"
 CHECK_DEADLOCK FALSE
